@@ -63,10 +63,10 @@ def plan(tier, seed):
                         "T": T, "start": start, "n": min(chunk, total - start), "total": total,
                         "seed": seed, "tier": tier, "timeout_s": 1800})
     if tier == "quick":
-        kinds = {"random": 6000, "overlapping": 1500, "adversarial": 1500}
+        kinds = {"random": 6000, "overlapping": 1500, "adversarial": 1500, "exact": 2500}
         per = 750
     else:
-        kinds = {"random": 400000, "overlapping": 80000, "adversarial": 80000}
+        kinds = {"random": 400000, "overlapping": 80000, "adversarial": 80000, "exact": 120000}
         per = 10000
     out += common.shards(kinds, per_shard=per, tier=tier, seed=seed)
     return out
@@ -169,6 +169,8 @@ def gen(rng, kind, tier):
             h = tracking.random_history(rng)
         elif kind == "overlapping":
             h = tracking.random_history(rng, overlapping=True)
+        elif kind == "exact":
+            h = tracking.exact_history(rng)
         else:
             h = tracking.adversarial_history(rng)
         if not tracking.has_knife_edge(h):
